@@ -337,7 +337,36 @@ type group struct {
 	rank   int
 }
 
-func groupKey(c kase, f finding) string { return f.Clause + "|kind=" + c.Kind }
+func groupKey(c kase, f finding) string {
+	if f.Shape != "" && f.Shape != "ordinary" {
+		return family(f.Clause) + ":key-shape=" + f.Shape + "|kind=" + c.Kind
+	}
+	return f.Clause + "|kind=" + c.Kind
+}
+
+// family of a clause: its name without sub-clause.
+func family(clause string) string {
+	if i := strings.Index(clause, ":"); i >= 0 {
+		return clause[:i]
+	}
+	return clause
+}
+
+// A clause that fails on a key of the key-alphabet part is reported under the
+// shape of that key (the parameter that matters there), unless the same family
+// of clauses already fails, for the same RPC kind, on ordinary keys: then the
+// shape of the key is not what matters and the case adds nothing.
+func generalFailures(outs []outcome) map[string]bool {
+	g := map[string]bool{}
+	for _, o := range outs {
+		for _, f := range o.findings {
+			if f.Shape == "" || f.Shape == "ordinary" {
+				g[family(f.Clause)+"|kind="+o.c.Kind] = true
+			}
+		}
+	}
+	return g
+}
 
 func (g *group) fingerprint(key string) string {
 	where := "handler"
@@ -389,10 +418,66 @@ func selfTest() string {
 			return fmt.Sprintf("self-test of the metadata oracle: carried(%s) = %q, want %q", mdString(t.got), got, t.want)
 		}
 	}
+	// keys the standard transport withholds are left out, every other key is not,
+	// and the failing key is named
+	ca = metadata.MD{"te": {"x"}, "grpc-trace-bin": {"t"}, "ka": {"a"}}
+	for _, t := range []struct {
+		got       metadata.MD
+		want, key string
+	}{
+		{metadata.MD{"grpc-trace-bin": {"t"}, "ka": {"a"}}, "", ""},
+		{metadata.MD{"te": {"x"}, "grpc-trace-bin": {"t"}, "ka": {"a"}}, "", ""},
+		{metadata.MD{"te": {"x"}, "ka": {"a"}}, "mismatch", "grpc-trace-bin"},
+		{metadata.MD{"grpc-trace-bin": {"t"}}, "mismatch", "ka"},
+	} {
+		if got, key := carriedKey(t.got, ca, nil, withheldKey); got != t.want || key != t.key {
+			return fmt.Sprintf("self-test of the metadata oracle: carriedKey(%s) = %q on %q, want %q on %q", mdString(t.got), got, key, t.want, t.key)
+		}
+	}
+	if got, _ := carriedKey(metadata.MD{"grpc-trace-bin": {"t"}, "ka": {"a"}}, ca, nil, nil); got != "mismatch" {
+		return "self-test of the metadata oracle: without the table of withheld keys a missing te must be a mismatch"
+	}
+	if k := firstDiffKey(metadata.MD{"a": {"1"}, "c": {"3"}}, metadata.MD{"a": {"1"}, "b": {"2"}, "c": {"4"}}); k != "b" {
+		return "self-test: firstDiffKey = " + k
+	}
+	seen := map[string]bool{}
+	for _, k := range keyAlphabet {
+		if seen[k.Name] || k.Name != strings.ToLower(k.Name) || k.Name == "ka" {
+			return "self-test: key alphabet entry " + k.Name
+		}
+		seen[k.Name] = true
+		for _, src := range []string{"new", "app", "creds"} {
+			if sp := spell(k.Name, src, true); sp == k.Name || strings.ToLower(sp) != k.Name {
+				return fmt.Sprintf("self-test: mixed spelling of %q by %s is %q", k.Name, src, sp)
+			}
+		}
+	}
+	if keyShape("grpc-tags-bin") != "grpc-prefix-bin" || keyShape("ka") != "ordinary" || !withheldKey(":path") || withheldKey("grpc-") {
+		return "self-test: key shapes"
+	}
+	// every kind of change the pinned part makes to the caller's MD changes what
+	// the MD's context shows, so that a late read cannot go unnoticed
+	for _, how := range reuseMutations {
+		id := make([]string, 1, 8)
+		id[0] = "id-0"
+		md := metadata.MD{"call-id": id, "doomed-1": {"d"}}
+		ctx := metadata.NewOutgoingContext(context.Background(), md)
+		before, _ := metadata.FromOutgoingContext(ctx)
+		mutate(md, how, 1)
+		after, _ := metadata.FromOutgoingContext(ctx)
+		if mdEqual(ours(before), ours(after)) {
+			return "self-test: the change " + how + " of the caller's MD does not show"
+		}
+	}
 	return ""
 }
 
 func main() {
+	for _, a := range os.Args[1:] {
+		if a == pinnedFlag {
+			pinnedChildMain()
+		}
+	}
 	rep := vlib.NewReporter("C10")
 	thorough := rep.Tier == "thorough"
 
@@ -401,6 +486,13 @@ func main() {
 	}
 
 	if p := common.Arg("replay"); p != "" {
+		var sniff struct {
+			Part string `json:"part"`
+		}
+		_ = common.LoadReplay(p, &sniff)
+		if sniff.Part == "reuse" {
+			replayReuse(p)
+		}
 		var c kase
 		if err := common.LoadReplay(p, &c); err != nil || c.Kind == "" {
 			inconclusive(fmt.Sprintf("cannot load replay: %v", err))
@@ -429,6 +521,7 @@ func main() {
 		refCases = append(refCases, contextGrammar([]string{"background"})...)
 		refCases = append(refCases, deadlineGrammar([]string{"background"}, false)...)
 		refCases = append(refCases, mdGrammar([]string{"background"})...)
+		refCases = append(refCases, keysGrammar([]string{"background"})...)
 		var mu sync.Mutex
 		var problem string
 		var wg sync.WaitGroup
@@ -473,12 +566,46 @@ func main() {
 		if problem != "" {
 			inconclusive(problem)
 		}
+		// the pinned part over the standard transport
+		routs, crash, _, err := runPinned(reuseGrammar(), true)
+		if err != nil || crash != "" {
+			inconclusive(fmt.Sprintf("bufconn reference of the pinned part: %v %s", err, crash))
+		}
+		for _, o := range routs {
+			for _, r := range o.Runs {
+				refRuns++
+				c := reuseGrammar()[o.Index]
+				if r.Internal != "" {
+					inconclusive("bufconn reference, " + c.String() + ": " + r.Internal)
+				}
+				if len(r.Findings) > 0 {
+					f := r.Findings[0]
+					inconclusive(fmt.Sprintf("the oracle disagrees with grpc-go over bufconn on %s: %s (%s, %s): %s", c, f.Clause, f.Where, f.When, f.Detail))
+				}
+			}
+		}
 	}
 
 	ctxCases := contextGrammar(allBases)
 	dlCases := deadlineGrammar(allBases, thorough)
 	mdCases := mdGrammar(allBases)
-	cases := append(append(append([]kase{}, ctxCases...), dlCases...), mdCases...)
+	keyCases := keysGrammar(allBases)
+	cases := append(append(append(append([]kase{}, ctxCases...), dlCases...), mdCases...), keyCases...)
+
+	// the pinned part runs in its own process, next to the rest
+	reuseCases := reuseGrammar()
+	type pinnedRes struct {
+		outs    []pinnedOut
+		crash   string
+		crashAt int
+		err     error
+	}
+	pinnedCh := make(chan pinnedRes, 1)
+	go func() {
+		var r pinnedRes
+		r.outs, r.crash, r.crashAt, r.err = runPinned(reuseCases, false)
+		pinnedCh <- r
+	}()
 
 	workers := runtime.NumCPU()
 	if workers > 16 {
@@ -493,6 +620,9 @@ func main() {
 	distinct := map[string]bool{}
 	byEnd := map[string]int{}
 	lateLookups, credsCases, sharedJoined, dlLive := 0, 0, 0, 0
+	keyCasesDone, keysSeen := 0, map[string]bool{}
+	general := generalFailures(outs)
+	foldedKeyFindings := 0
 	var samples []interface{}
 	sampled := map[string]bool{}
 	groups := map[string]*group{}
@@ -518,7 +648,14 @@ func main() {
 			dlLive++
 		}
 		// one sample per (part, end, credentials yes/no) of the largest input of its kind
-		full := c.Layers == 1<<len(layerNames)-1 && c.Part == "" || c.Part == "md" && c.MDNew == "ka+kb+authorization" && c.MDApp == "ka+kb+authorization" && (c.Creds == "" || c.Creds == "ka+kb+authorization") && c.Spelling == "mixed" && c.Layers == 1<<len(layerNames)-1
+		full := c.Layers == 1<<len(layerNames)-1 && c.Part == "" || c.Part == "md" && c.MDNew == "ka+kb+authorization" && c.MDApp == "ka+kb+authorization" && (c.Creds == "" || c.Creds == "ka+kb+authorization") && c.Spelling == "mixed" && c.Layers == 1<<len(layerNames)-1 ||
+			c.Part == "keys" && c.Key == allKeys && (c.Sources == "new+app" || c.Sources == "new+app+creds") && c.Companion && c.Spelling == "mixed" && c.Layers == 1<<len(layerNames)-1
+		if c.Part == "keys" && o.phases == 4 {
+			keyCasesDone++
+			if c.Key != allKeys {
+				keysSeen[c.Key] = true
+			}
+		}
 		sk := fmt.Sprintf("%s|%s|%v", c.Part, c.end(), c.Creds != "")
 		if full && !sampled[sk] && c.Order == "up" && c.IC && c.Kind == "stream" && c.Base == "in-unary-handler" && (c.Deadline || c.Part == "md") {
 			sampled[sk] = true
@@ -527,6 +664,10 @@ func main() {
 				"caller_and_credentials_values_seen_joined_on_a_shared_key": o.shared, "clauses_violated": len(o.findings)})
 		}
 		for _, f := range o.findings {
+			if f.Shape != "" && f.Shape != "ordinary" && general[family(f.Clause)+"|kind="+c.Kind] {
+				foldedKeyFindings++
+				continue
+			}
 			k := groupKey(c, f)
 			g := groups[k]
 			if g == nil {
@@ -550,33 +691,102 @@ func main() {
 		g := groups[k]
 		rep.Violation(g.fingerprint(k), fmt.Sprintf("%s [%d observations over the grammar; the replay is the simplest case]", g.detail, g.n), g.first)
 	}
+
+	// the pinned part
+	pr := <-pinnedCh
+	if pr.err != nil {
+		inconclusive(pr.err.Error())
+	}
+	reuseEvals, reuseIdentical, reuseLooks, reusePairsRepeated, reuseFolded := 0, 0, 0, 0, 0
+	rgroups := map[string]*rgroup{}
+	var rorder []string
+	var reuseSamples []interface{}
+	for _, o := range pr.outs {
+		c := reuseCases[o.Index]
+		reuseEvals += 2 * o.Pairs
+		for _, r := range o.Runs {
+			if r.Internal != "" {
+				inconclusive(c.String() + ": " + r.Internal)
+			}
+		}
+		same := sameObs(o.Runs[0], o.Runs[1])
+		if same {
+			reuseIdentical++
+		}
+		if o.Pairs > 1 {
+			reusePairsRepeated++
+		}
+		if same && o.Runs[0].Complete && o.Runs[1].Complete {
+			distinct[c.String()] = true
+			reuseLooks += strings.Count(strings.Join(o.Runs[0].Obs, ""), " saw ")
+		}
+		if c.Calls == maxSeries && c.IC && c.Appended && c.Creds && c.Ctx == "one-context" && c.Drain == "after-all" && c.Look == "entry" && c.Mutation == "set" && (c.Kind == "bidi-stream" || c.Kind == "server-stream") {
+			reuseSamples = append(reuseSamples, map[string]interface{}{"case": c, "description": c.String(), "observations_run_1": o.Runs[0].Obs, "observations_run_2_identical": same,
+				"clauses_violated": len(o.Runs[0].Findings) + len(o.Runs[1].Findings)})
+		}
+		// a handler that sees even what the caller changes while the handler is
+		// parked (the clause md-aliasing:caller->handler of the main part) sees what
+		// the caller changes earlier: nothing new
+		kf := "stream"
+		if c.Kind == "unary" {
+			kf = "unary"
+		}
+		if groups["md-aliasing:caller->handler|kind="+kf] != nil {
+			reuseFolded += len(o.Runs[0].Findings) + len(o.Runs[1].Findings)
+			continue
+		}
+		groupReuse(c, o, same, rgroups, &rorder)
+	}
+	for _, k := range rorder {
+		rep.Violation(k, rgroups[k].what(), rgroups[k].first)
+	}
+	if pr.crash != "" {
+		c := reuseCases[pr.crashAt]
+		if !strings.Contains(pr.crash, "concurrent map") {
+			inconclusive("the pinned child process died on " + c.String() + ": " + pr.crash)
+		}
+		rep.Violation(crashFingerprint(c), crashWhat(c, pr.crash), c)
+	}
 	dlLayerSets := "the layer sets {none, each single layer, all nine} (sweep: every case has to wait for a real deadline)"
 	if thorough {
 		dlLayerSets = "all 2^9 layer subsets"
 	}
 	os.Exit(rep.Finish("exploration", map[string]interface{}{
-		"evaluations":         evals,
+		"evaluations":         evals + reuseEvals,
 		"distinct_nontrivial": len(distinct),
 		"grammar": map[string]interface{}{
 			"context_grammar_cases":    len(ctxCases),
 			"deadline_expiry_cases":    len(dlCases),
 			"metadata_sweep_cases":     len(mdCases),
+			"key_alphabet_cases":       len(keyCases),
+			"key_alphabet":             keyAlphabetNames(),
+			"pinned_reuse_cases":       len(reuseCases),
+			"pinned_reuse_runs":        reuseEvals,
 			"instants_per_case":        "handler: entry, parked, context-end (after-cancel / after-deadline), after the caller's call returned; interceptor: entry, after the handler returned",
 			"lookups_per_late_instant": lookups,
 		},
-		"nontrivial_by_end_of_context":                          byEnd,
-		"accessor_lookups_after_context_end":                    lateLookups,
-		"cases_with_per_rpc_credentials":                        credsCases,
-		"cases_where_handler_saw_caller_and_credentials_joined": sharedJoined,
-		"deadline_cases_with_entry_and_parked_before_expiry":    dlLive,
+		"nontrivial_by_end_of_context":                                 byEnd,
+		"accessor_lookups_after_context_end":                           lateLookups,
+		"cases_with_per_rpc_credentials":                               credsCases,
+		"cases_where_handler_saw_caller_and_credentials_joined":        sharedJoined,
+		"deadline_cases_with_entry_and_parked_before_expiry":           dlLive,
+		"key_alphabet_cases_completed":                                 keyCasesDone,
+		"key_alphabet_keys_exercised":                                  len(keysSeen),
+		"key_alphabet_findings_folded_into_a_failure_on_ordinary_keys": foldedKeyFindings,
+		"pinned_reuse_cases_with_identical_observations_twice":         fmt.Sprintf("%d of %d", reuseIdentical, len(reuseCases)),
+		"pinned_reuse_handler_and_interceptor_looks_compared":          reuseLooks,
+		"pinned_reuse_cases_whose_pair_of_runs_was_repeated":           reusePairsRepeated,
+		"pinned_reuse_findings_folded_into_md_aliasing_while_parked":   reuseFolded,
 		"rule": "CONTEXT GRAMMAR, fully crossed: all 2^9 subsets of caller-context layers (string key, struct key, NewOutgoingContext metadata, incoming metadata, peer, enclosing ServerTransportStream, AppendToOutgoingContext pairs, context-typed value, peer with AuthInfo) x 2 stacking orders x 3 base contexts (background, inside an in-process unary handler, inside an in-process stream handler) " +
 			"x unary/stream x with/without channel-level server interceptors x {no credentials, grpc.PerRPCCredentials returning a key the caller's metadata shares and one in mixed case that it does not} x {far deadline, none} x end of the call's context {the caller cancels while the handler runs; the handler returns a response and a goroutine it started keeps the context}. " +
 			"DEADLINE EXPIRY: the same with a real short deadline of the caller that passes while the handler waits on ctx.Done(), over " + dlLayerSets + ". " +
 			"METADATA SWEEP, around each base case (3 bases x unary/stream x interceptors x other seven layers none/all): every triple of subsets of the key alphabet {ka (one value per source), kb (two values from NewOutgoingContext, two appended pairs, one from the credentials), authorization} given to NewOutgoingContext, to AppendToOutgoingContext and returned by the per-RPC credentials (9 = 8 subsets incl. credentials returning nothing + no credentials option) x lower/mixed-case spelling (each source spells a key differently) x 2 stacking orders (NewOutgoingContext after AppendToOutgoingContext discards the appended pairs). " +
+			"KEY ALPHABET SWEEP, around each base case (3 bases x unary/stream x interceptors x other seven layers none/all): each of the " + fmt.Sprint(len(keyAlphabet)) + " keys listed under grammar.key_alphabet (keys that look like protocol headers: grpc- prefix with and without -bin suffix, names grpc-go itself uses, HTTP header names, look-alikes of reserved names, pseudo headers; some that the standard transport forwards and some that it withholds) and all of them at once x every non-empty set of sources that carry the key {NewOutgoingContext (two values), AppendToOutgoingContext, per-RPC credentials} (withheld keys never from the credentials) x {alone, next to the ordinary key ka in every source} x lower/mixed spelling x 2 stacking orders; binary values for -bin keys. A forwarded key must reach the handler exactly like an ordinary key; of a withheld key nothing is demanded in the handler's incoming metadata, but ClientContext must show it. " +
+			"PINNED RE-USE PART (the caller changes the MD it gave to NewOutgoingContext immediately after the stub call returned, before anything that yields; one MD re-used for a series of calls with another value each), fully crossed: kind {unary, server-stream (stub = NewStream+SendMsg+CloseSend), client-stream, bidi-stream} x interceptors x series of 1, 2, 3 calls with one MD x {one context re-used, a context made of the same MD per call} x {MD alone, appended pairs on top} x {no credentials, per-RPC credentials} x change made right after each stub call {Set, write into the value slice in place, add a key, delete a key, append a value into spare capacity} x {each call completed right after the change, all calls completed after the last change} x first look of handler and interceptor at their metadata {at entry, only after the whole series through a kept context}; every look of every call must show the caller's outgoing metadata as it was when that stub call was made. This part runs in a child process pinned to one P (runtime.GOMAXPROCS(1), GODEBUG=asyncpreemptoff=1, GC off), where a goroutine started by the call cannot run before the caller blocks; each case is run twice after letting leftovers of earlier runs finish and the two runs must make identical observations (pinned_reuse_cases_with_identical_observations_twice; a pair that differs is repeated up to 4 times and reported as unstable if it still differs). " +
 			"Each case is a real call on a fresh inprocgrpc.Channel. The whole oracle (no caller value visible, incoming metadata = caller's outgoing joined with the credentials', in-process peer, own transport stream, caller's deadline, not done before the caller's context, ClientContext = the caller's context with all its values, chain of client contexts for nested calls) is evaluated inside the handler at entry, again while parked after the caller mutated in place / Set / deleted on the very map it gave to NewOutgoingContext, again after ctx.Done() (cancel or deadline), and again after the gate 'the caller's Invoke/RecvMsg has returned'; inside the interceptor at entry and after the handler returned. " +
 			"At every instant after the end of the context the accessors are looked up `lookups` times with runtime.Gosched() in between before the full oracle runs (work the library left to goroutines gets the processor; no clock). " +
-			"A case is non-trivial when the caller context carried at least one thing the library has to block, replace or join (a layer, credentials, or the enclosing handler's own context) and the handler completed all four phases; distinct by all parameters.",
-		"samples":                        samples,
+			"A case is non-trivial when the caller context carried at least one thing the library has to block, replace or join (a layer, credentials, or the enclosing handler's own context) and the handler completed all four phases; a pinned case when every look of every call of the series was made in both runs and the two runs agree; distinct by all parameters.",
+		"samples":                        append(samples, reuseSamples...),
 		"exhaustive":                     true,
 		"reference_runs_on_grpc_bufconn": refRuns,
 	}, []string{
@@ -585,6 +795,8 @@ func main() {
 		"the deadline-expiry dimension is crossed with all layer subsets only in the thorough tier; in the quick tier it is swept over the layer sets none / each single layer / all; the metadata key-set dimension is swept around the base cases (layers other than the two metadata layers none or all), with end of context = cancel",
 		"on a key that caller and credentials both supply the order between the caller's values and the credentials' is not demanded (grpc-go sends the credentials' first, the in-process channel appends them); the caller's values must keep their order",
 		"metadata aliasing can only be probed through the public metadata API (which copies) and through the map the caller gave to NewOutgoingContext",
+		"which keys the standard transport forwards is a table in the check (grammar.key_alphabet); the thorough tier checks every row in both directions against grpc-go v1.57.1 over bufconn (a forwarded key must arrive exactly, a withheld key must show none of the caller's values) and stops as INCONCLUSIVE on a disagreement; keys that break a real connection (connection, upper-case or non-printable names) are not in the alphabet; the key alphabet is swept around the base cases with end of context = cancel, not crossed with the other eight layers' subsets",
+		"the pinned re-use part has no clock and no sleep: the window 'the stub call has returned, the caller has not yet yielded' is made deterministic by a single P with asynchronous preemption off in a child process (which also contains a runtime abort 'concurrent map iteration and map write' of a library that reads the caller's map late: that abort is reported as a violation of the same clause); the caller yields nowhere between the return of the stub call and its change of the MD; it is made from a background context (not crossed with base contexts and layers); the thorough tier runs the same part over grpc-go/bufconn, where it must hold too",
 		"'an in-process peer' is taken to be the peer (address and auth info) that the same call reports to the caller through grpc.Peer",
 		"ClientContext may return a context derived from the caller's (the channel adds cancellation and the credentials' metadata); what is demanded is that every value of the caller's context, its peer, transport stream, incoming and outgoing metadata are reachable through it at every instant",
 	}))
